@@ -59,7 +59,7 @@ func (m *Mutex) Lock() {
 		return
 	}
 	where := vsched.Caller(2)
-	s.Yield("Lock@" + where)
+	s.YieldIf("sync.Mutex", "Lock@"+where)
 	for m.locked {
 		if s.Aborted() {
 			return
@@ -107,7 +107,7 @@ func (m *Mutex) Unlock() {
 	}
 	m.locked = false
 	s.NoteReleased(m)
-	s.Yield("Unlock")
+	s.YieldIf("sync.Mutex", "Unlock")
 }
 
 type RWMutex struct{ Mutex }
@@ -126,7 +126,7 @@ type Map struct {
 
 func pt(op string) {
 	if s := vsched.Active(); s != nil && !s.Aborted() {
-		s.Yield("Map." + op)
+		s.YieldIf("sync.Map", "Map."+op)
 	}
 }
 
